@@ -145,7 +145,7 @@ var algos = []algoCase{
 
 func main() {
 	r := ev.Start("C30", "exploration")
-	r.SetRule("A: seeded calls (quick 24 worlds x 16, thorough 300 x 16) of GetCertificate / Sign by three clients (two may share a node id) on hostnames {bound to client0 with an ECDSA leaf, bound to client1 with an RSA leaf, bound to nobody; plain and space-padded} x proofs {valid, none, wrong subject, expired, low difficulty, bad signature, unsolved} x algorithms {SHA256, SHA384, SHA512, UNKNOWN, two undefined enum values} x digest lengths {exact, -1, +1, 0, length of another supported hash}; distinct = (op, caller relation, proof kind, algorithm, digest-length class, result), non-trivial = at least one of the conditions of the statement is violated by the request or the call is served. B: TTL for certificates with remaining validity from -1 h to +10 min (dense around the skew and the 5 min cap), with and without a parsed Leaf, through VerifKeylessTTL with an explicit clock and through the real loader (VerifKeylessLoad); distinct = (remaining-validity bucket, leaf parsed, path).")
+	r.SetRule("A: seeded calls (quick 24 worlds x 16, thorough 300 x 16) of GetCertificate / Sign by three clients (two may share a node id) on hostnames {bound to client0 with an ECDSA leaf, bound to client1 with an RSA leaf, bound to nobody; plain and space-padded} x proofs {valid, none, wrong subject, expired, low difficulty, bad signature, unsolved} x algorithms {SHA256, SHA384, SHA512, UNKNOWN, two undefined enum values} x digest lengths {exact, -1, +1, 0, length of another supported hash}; distinct = (op, caller relation, proof kind, algorithm, digest-length class, result), non-trivial = at least one of the conditions of the statement is violated by the request or the call is served. B: TTL for certificates with remaining validity from -1 h to +10 min (dense around the skew and the 5 min cap), with and without a parsed Leaf, through VerifKeylessTTL with an explicit clock and through the real loader (VerifKeylessLoad), also behind a provider that answers after 0.2-1.5 s with a certificate close to NotAfter - skew; distinct = (remaining-validity bucket, leaf parsed, path).")
 	r.Assume("safety skew = 1 min and cap = 5 min (the constants of keyless_cache.go); a certificate already inside the skew window may be kept for at most 1 s (deliberate floor, pinned by the repository's own test)")
 	r.Assume("for the real loader the clock is read inside the call: ttl is judged against NotAfter - skew - (time before the call), which can only be more permissive than the loader's own clock")
 	r.Assume("a request that satisfies every condition of the statement must be served (control; a failure with a fresh proof is reported as inconclusive, not as a violation)")
@@ -497,6 +497,65 @@ func partB(r *ev.Run, rng *rand.Rand) {
 		if i < 2 {
 			r.Sample(map[string]any{"path": "VerifKeylessLoad", "not_after_minus_time_before_call": budget.String(), "leaf_parsed": parsed, "ttl": ttl.String()})
 		}
+	}
+	// a provider that takes its time (on-demand issuance, storage round trips): the cache starts
+	// counting the TTL when the loader returns, which is not before the provider has answered
+	// (instant tp, read inside the provider right before it returns). So tp + ttl must not lie
+	// beyond NotAfter - skew — unless the 1 s floor applies.
+	{
+		type slow struct {
+			cert    *tls.Certificate
+			latency time.Duration
+			tp      time.Time
+		}
+		var smu sync.Mutex
+		plans := map[string]*slow{}
+		lab.Certs.Fn = func(sni string) (*tls.Certificate, error) {
+			smu.Lock()
+			pl := plans[sni]
+			smu.Unlock()
+			if pl == nil {
+				return nil, errors.New("no plan")
+			}
+			time.Sleep(pl.latency)
+			pl.tp = time.Now()
+			return pl.cert, nil
+		}
+		ns := r.Pick(24, 200)
+		var swg sync.WaitGroup
+		for i := 0; i < ns; i++ {
+			name := fmt.Sprintf("ttl-slow-provider/%d", i)
+			if !r.WantCase(name) {
+				continue
+			}
+			lat := time.Duration(200+rng.Intn(1300)) * time.Millisecond
+			rem := skew + lat + time.Duration(1200+rng.Intn(3000))*time.Millisecond
+			parsed := i%2 == 0
+			sni := fmt.Sprintf("slow%d.example.net", i)
+			swg.Add(1)
+			go func(i int, name, sni string, lat, rem time.Duration, parsed bool) {
+				defer swg.Done()
+				k := makeLeafWithKey("ecdsa", ecKey, time.Now().Add(rem), parsed)
+				c, _ := x509.ParseCertificate(k.cert.Certificate[0])
+				pl := &slow{cert: k.cert, latency: lat}
+				smu.Lock()
+				plans[sni] = pl
+				smu.Unlock()
+				cert, lerr, ttl := lab.Server.VerifKeylessLoad(caller.Ctx(context.Background(), 10000+i), sni)
+				if lerr != nil || cert == nil {
+					r.Inconclusive(fmt.Sprintf("%s: keyless loader failed: %v", name, lerr))
+					return
+				}
+				over := pl.tp.Add(ttl).Sub(c.NotAfter.Add(-skew))
+				r.Case(fmt.Sprintf("ttl/slow-provider/leaf=%v/floor=%v", parsed, ttl <= time.Second))
+				r.Count("loads_through_a_slow_provider", 1)
+				if ttl > time.Second && over > 0 {
+					r.Violation("kept-past-expiry-minus-skew/slow-provider", name, fmt.Sprintf("the provider answered after %v with a certificate that had %v left until NotAfter - skew; the loader returned ttl %v: counted from the provider's answer the entry outlives NotAfter - skew by %v", lat, c.NotAfter.Add(-skew).Sub(pl.tp), ttl, over),
+						map[string]any{"provider_latency": lat.String(), "ttl": ttl.String(), "leaf_parsed": parsed})
+				}
+			}(i, name, sni, lat, rem, parsed)
+		}
+		swg.Wait()
 	}
 	// failed loads are recorded, not judged
 	lab.Certs.Fn = func(string) (*tls.Certificate, error) { return nil, errors.New("provider down") }
